@@ -19,8 +19,6 @@ From EvyV Require Vm Compile CompileSem.
 Import ListNotations.
 Local Open Scope positive_scope.
 
-Module C := Compile.
-Module CS := CompileSem.
 
 (* ====================================================================== *)
 (* 1. The two syntaxes                                                     *)
@@ -28,30 +26,30 @@ Module CS := CompileSem.
 (* Compile.v's AST carries what compiler.go inspects; Ast.v's is the typed tree the evaluator
    walks.  [xrel e x]: x is e with arbitrary type annotations (Sem.v never looks at them in
    this fragment). *)
-Definition trop (op : C.binop) : option binop :=
+Definition trop (op : Compile.binop) : option binop :=
   match op with
-  | C.BPlus => Some BPlus | C.BMinus => Some BMinus | C.BStar => Some BAsterisk | C.BSlash => Some BSlash
-  | C.BPercent => Some BPercent
-  | C.BLt => Some BLt | C.BLe => Some BLtEq | C.BGt => Some BGt | C.BGe => Some BGtEq
-  | C.BEq => Some BEq | C.BNe => Some BNotEq
+  | Compile.BPlus => Some BPlus | Compile.BMinus => Some BMinus | Compile.BStar => Some BAsterisk | Compile.BSlash => Some BSlash
+  | Compile.BPercent => Some BPercent
+  | Compile.BLt => Some BLt | Compile.BLe => Some BLtEq | Compile.BGt => Some BGt | Compile.BGe => Some BGtEq
+  | Compile.BEq => Some BEq | Compile.BNe => Some BNotEq
   | _ => None
   end.
 
-Inductive xrel : C.expr -> expr -> Prop :=
-| x_num f : xrel (C.ENum f) (ENum f)
-| x_bool b : xrel (C.EBool b) (EBool b)
-| x_str s : xrel (C.EStr s) (EStr s)
-| x_var n t : xrel (C.EVar n) (EVar n t)
-| x_group e x : xrel e x -> xrel (C.EGroup e) (EGroup x)
-| x_neg e x : xrel e x -> xrel (C.EUn C.UMinus e) (EUn UMinus x)
-| x_not e x : xrel e x -> xrel (C.EUn C.UBang e) (EUn UBang x)
+Inductive xrel : Compile.expr -> expr -> Prop :=
+| x_num f : xrel (Compile.ENum f) (ENum f)
+| x_bool b : xrel (Compile.EBool b) (EBool b)
+| x_str s : xrel (Compile.EStr s) (EStr s)
+| x_var n t : xrel (Compile.EVar n) (EVar n t)
+| x_group e x : xrel e x -> xrel (Compile.EGroup e) (EGroup x)
+| x_neg e x : xrel e x -> xrel (Compile.EUn Compile.UMinus e) (EUn UMinus x)
+| x_not e x : xrel e x -> xrel (Compile.EUn Compile.UBang e) (EUn UBang x)
 | x_bin op op' lt rt t l r xl xr : trop op = Some op' -> xrel l xl -> xrel r xr ->
-    xrel (C.EBin op lt rt l r) (EBin op' t xl xr)
-| x_arr l xl t : xlrel l xl -> xrel (C.EArr l) (EArr t xl)
-| x_index l i xl xi t : xrel l xl -> xrel i xi -> xrel (C.EIndex l i) (EIndex t xl xi)
-with xlrel : C.elist -> list expr -> Prop :=
-| xl_nil : xlrel C.ENil []
-| xl_cons e t x xt : xrel e x -> xlrel t xt -> xlrel (C.ECons e t) (x :: xt).
+    xrel (Compile.EBin op lt rt l r) (EBin op' t xl xr)
+| x_arr l xl t : xlrel l xl -> xrel (Compile.EArr l) (EArr t xl)
+| x_index l i xl xi t : xrel l xl -> xrel i xi -> xrel (Compile.EIndex l i) (EIndex t xl xi)
+with xlrel : Compile.elist -> list expr -> Prop :=
+| xl_nil : xlrel Compile.ENil []
+| xl_cons e t x xt : xrel e x -> xlrel t xt -> xlrel (Compile.ECons e t) (x :: xt).
 
 Scheme xrel_mind := Minimality for xrel Sort Prop
   with xlrel_mind := Minimality for xlrel Sort Prop.
@@ -60,14 +58,14 @@ Combined Scheme xrel_xlrel_ind from xrel_mind, xlrel_mind.
 (* an expression whose value, when defined, is a number, a string or a bool whatever the
    variables hold: == and != are in the fragment when one operand is of this form (then a
    defined comparison has two scalar operands: value.Equals is undefined on mixed kinds) *)
-Fixpoint scalar_valued (e : C.expr) : bool :=
+Fixpoint scalar_valued (e : Compile.expr) : bool :=
   match e with
-  | C.ENum _ | C.EBool _ | C.EStr _ => true
-  | C.EGroup e1 => scalar_valued e1
-  | C.EUn C.UMinus _ | C.EUn C.UBang _ => true
-  | C.EBin op lt _ _ _ =>
+  | Compile.ENum _ | Compile.EBool _ | Compile.EStr _ => true
+  | Compile.EGroup e1 => scalar_valued e1
+  | Compile.EUn Compile.UMinus _ | Compile.EUn Compile.UBang _ => true
+  | Compile.EBin op lt _ _ _ =>
       match op with
-      | C.BPlus | C.BStar => match lt with C.TNum | C.TStr => true | _ => false end
+      | Compile.BPlus | Compile.BStar => match lt with Compile.TNum | Compile.TStr => true | _ => false end
       | _ => true
       end
   | _ => false
@@ -76,30 +74,30 @@ Fixpoint scalar_valued (e : C.expr) : bool :=
 Definition name_ok (n : str) : bool := negb (str_eqb n underscore).
 
 (* the expression fragment of the tie *)
-Fixpoint tfrag_e (e : C.expr) : bool :=
+Fixpoint tfrag_e (e : Compile.expr) : bool :=
   match e with
-  | C.ENum _ | C.EBool _ => true
-  | C.EStr s => is_ascii s
-  | C.EVar n => name_ok n
-  | C.EGroup e1 => tfrag_e e1
-  | C.EUn C.UMinus e1 | C.EUn C.UBang e1 => tfrag_e e1
-  | C.EBin op lt rt l r =>
+  | Compile.ENum _ | Compile.EBool _ => true
+  | Compile.EStr s => is_ascii s
+  | Compile.EVar n => name_ok n
+  | Compile.EGroup e1 => tfrag_e e1
+  | Compile.EUn Compile.UMinus e1 | Compile.EUn Compile.UBang e1 => tfrag_e e1
+  | Compile.EBin op lt rt l r =>
       match trop op with
       | Some _ =>
           tfrag_e l && tfrag_e r &&
           match op with
-          | C.BEq | C.BNe => scalar_valued l || scalar_valued r
-          | C.BStar => match lt with C.TArr => false | _ => true end   (* no repetition (deepCopy) *)
+          | Compile.BEq | Compile.BNe => scalar_valued l || scalar_valued r
+          | Compile.BStar => match lt with Compile.TArr => false | _ => true end   (* no repetition (deepCopy) *)
           | _ => true
           end
       | None => false
       end
-  | C.EArr l => tfrag_el l
-  | C.EIndex l i => tfrag_e l && tfrag_e i
+  | Compile.EArr l => tfrag_el l
+  | Compile.EIndex l i => tfrag_e l && tfrag_e i
   | _ => false
   end
-with tfrag_el (l : C.elist) : bool :=
-  match l with C.ENil => true | C.ECons e t => tfrag_e e && tfrag_el t end.
+with tfrag_el (l : Compile.elist) : bool :=
+  match l with Compile.ENil => true | Compile.ECons e t => tfrag_e e && tfrag_el t end.
 
 (* ====================================================================== *)
 (* 2. Values against cells, environments against scopes                    *)
@@ -140,17 +138,17 @@ Lemma is_ascii_app a b : is_ascii a = true -> is_ascii b = true -> is_ascii (a +
 Proof. unfold is_ascii. intros. rewrite forallb_app. apply andb_true_iff; auto. Qed.
 
 (* a frame of lx_l against a frame of Sem: the same names, related values *)
-Definition frel_in (h : heap) (lf : CS.frame) (sf : frame) : Prop :=
+Definition frel_in (h : heap) (lf : CompileSem.frame) (sf : frame) : Prop :=
   forall n, match frame_get n sf with
-            | Some l => exists v, CS.alook n lf = Some v /\ holds h l v
-            | None => CS.alook n lf = None
+            | Some l => exists v, CompileSem.alook n lf = Some v /\ holds h l v
+            | None => CompileSem.alook n lf = None
             end.
 (* the global frame of lx_l against the globals of Sem (which also hold err, errmsg, pi) *)
-Definition frel_gl (h : heap) (gf : CS.frame) (g : frame) : Prop :=
-  forall n v, CS.alook n gf = Some v -> exists l, frame_get n g = Some l /\ holds h l v.
+Definition frel_gl (h : heap) (gf : CompileSem.frame) (g : frame) : Prop :=
+  forall n v, CompileSem.alook n gf = Some v -> exists l, frame_get n g = Some l /\ holds h l v.
 
 (* lenv = inner frames ++ [globals] against (env, st_globals) *)
-Definition envrel (lenv : CS.senv) (E : env) (s : state) : Prop :=
+Definition envrel (lenv : CompileSem.senv) (E : env) (s : state) : Prop :=
   exists lfs gf, lenv = lfs ++ [gf] /\
                  Forall2 (frel_in (st_heap s)) lfs E /\ frel_gl (st_heap s) gf (st_globals s).
 
@@ -173,13 +171,13 @@ Qed.
 
 (* lookups agree *)
 Lemma lookup_tie lenv E s n v :
-  envrel lenv E s -> name_ok n = true -> CS.slook n lenv = Some v ->
+  envrel lenv E s -> name_ok n = true -> CompileSem.slook n lenv = Some v ->
   exists l, lookup n E s = (Ok (Some l), s) /\ holds (st_heap s) l v.
 Proof.
   intros (lfs & gf & -> & F & FG) N H. unfold lookup. unfold name_ok in N.
   apply negb_true_iff in N. rewrite N.
   induction F as [|lf sf lt st Hf F IH]; simpl in *.
-  - destruct (CS.alook n gf) as [w|] eqn:A; [|discriminate]. inversion H; subst w.
+  - destruct (CompileSem.alook n gf) as [w|] eqn:A; [|discriminate]. inversion H; subst w.
     destruct (FG n v A) as (l & G & Hl). exists l. rewrite G. auto.
   - specialize (Hf n). destruct (frame_get n sf) as [l|].
     + destruct Hf as (w & A & Hl). rewrite A in H. inversion H; subst w. exists l. auto.
@@ -357,8 +355,8 @@ Proof. intros F G. induction F; simpl; auto. Qed.
 
 (* the operator on two cells that hold plain values (no repetition of arrays) *)
 Lemma dispatch_tie op op' lt rt s la lb a b v :
-  trop op = Some op' -> op <> C.BEq -> op <> C.BNe -> (op = C.BStar -> lt <> C.TArr) -> good s ->
-  holds (st_heap s) la a -> holds (st_heap s) lb b -> C.eval_binop op lt rt a b = Some v ->
+  trop op = Some op' -> op <> Compile.BEq -> op <> Compile.BNe -> (op = Compile.BStar -> lt <> Compile.TArr) -> good s ->
+  holds (st_heap s) la a -> holds (st_heap s) lb b -> Compile.eval_binop op lt rt a b = Some v ->
   exists l s', bin_dispatch op' la lb s = (Ok l, s') /\ holds (st_heap s') l v /\ sext s s'.
 Proof.
   intros T N1 N2 NR G Ha Hb Hv. unfold bin_dispatch.
@@ -397,16 +395,16 @@ Lemma short_of_trop op op' v : trop op = Some op' -> short_of op' v = false.
 Proof. destruct op; simpl; intro T; inversion T; subst; reflexivity. Qed.
 
 (* a manifestly scalar expression has a scalar value whenever it has one *)
-Lemma scalar_valued_sound env : forall e v, scalar_valued e = true -> C.eval_expr env e = Some v -> scalar v.
+Lemma scalar_valued_sound env : forall e v, scalar_valued e = true -> Compile.eval_expr env e = Some v -> scalar v.
 Proof.
   fix IH 1. intros e v S Ev. destruct e; simpl in S; try discriminate; simpl in Ev.
   - inversion Ev; exact I.
   - inversion Ev; exact I.
   - inversion Ev; exact I.
   - destruct op; try discriminate;
-      destruct (C.eval_expr env e) as [[]|]; try discriminate; inversion Ev; exact I.
-  - destruct (C.eval_expr env e1) as [a|]; [|discriminate]. destruct (C.eval_expr env e2) as [b|]; [|discriminate].
-    unfold C.eval_binop in Ev.
+      destruct (Compile.eval_expr env e) as [[]|]; try discriminate; inversion Ev; exact I.
+  - destruct (Compile.eval_expr env e1) as [a|]; [|discriminate]. destruct (Compile.eval_expr env e2) as [b|]; [|discriminate].
+    unfold Compile.eval_binop in Ev.
     destruct op; try discriminate;
       try (destruct (Vm.val_equals a b); [inversion Ev; exact I | discriminate]);
       destruct lt; try discriminate; destruct rt; try discriminate;
@@ -466,10 +464,10 @@ Proof. intros L H. eapply (proj1 (proj2 (fuel_mono n m L))); [exact H | discrimi
 
 Theorem tie_expr_all P :
   (forall e x, xrel e x -> forall lenv E s v,
-     tfrag_e e = true -> C.eval_expr (fun n => CS.slook n lenv) e = Some v ->
+     tfrag_e e = true -> Compile.eval_expr (fun n => CompileSem.slook n lenv) e = Some v ->
      envrel lenv E s -> good s -> ev_ok P E x s v) /\
   (forall l xl, xlrel l xl -> forall lenv E s vs,
-     tfrag_el l = true -> C.eval_list (fun n => CS.slook n lenv) l = Some vs ->
+     tfrag_el l = true -> Compile.eval_list (fun n => CompileSem.slook n lenv) l = Some vs ->
      envrel lenv E s -> good s -> evs_ok P E xl s vs).
 Proof.
   apply xrel_xlrel_ind;
@@ -493,7 +491,7 @@ Proof.
     exists (S N), l, s'. split; [|split; [exact Hl | eapply sext_trans; [apply sext_tickst; auto | exact X]]].
     cbn [eval_expr]. rewrite (run_tick _ s G). exact Hx.
   - (* unary minus *)
-    destruct (C.eval_expr _ e) as [[f| | | | | |]|] eqn:Ee; try discriminate. inversion Ev; subst v.
+    destruct (Compile.eval_expr _ e) as [[f| | | | | |]|] eqn:Ee; try discriminate. inversion Ev; subst v.
     pose proof (envrel_sext _ _ _ _ (sext_tickst s G) R) as R1.
     destruct (IH _ _ _ _ Fr Ee R1 (good_tickst s G)) as (N & l & s' & Hx & Hl & X).
     inversion Hl; subst.
@@ -503,7 +501,7 @@ Proof.
     + eapply sext_trans; [apply sext_tickst; auto|]. eapply sext_trans; [exact X|].
       apply sext_allocst. eapply sext_good; eauto.
   - (* not *)
-    destruct (C.eval_expr _ e) as [[| b | | | | |]|] eqn:Ee; try discriminate. inversion Ev; subst v.
+    destruct (Compile.eval_expr _ e) as [[| b | | | | |]|] eqn:Ee; try discriminate. inversion Ev; subst v.
     pose proof (envrel_sext _ _ _ _ (sext_tickst s G) R) as R1.
     destruct (IH _ _ _ _ Fr Ee R1 (good_tickst s G)) as (N & l & s' & Hx & Hl & X).
     inversion Hl; subst.
@@ -514,8 +512,8 @@ Proof.
       apply sext_allocst. eapply sext_good; eauto.
   - (* binary *)
     rewrite H in Fr. apply andb_true_iff in Fr as [Fr Fx]. apply andb_true_iff in Fr as [Fl Fr].
-    destruct (C.eval_expr _ l) as [a|] eqn:El; [|discriminate].
-    destruct (C.eval_expr _ r) as [b|] eqn:Er; [|discriminate].
+    destruct (Compile.eval_expr _ l) as [a|] eqn:El; [|discriminate].
+    destruct (Compile.eval_expr _ r) as [b|] eqn:Er; [|discriminate].
     pose proof (envrel_sext _ _ _ _ (sext_tickst s G) R) as R1.
     destruct (IHl _ _ _ _ Fl El R1 (good_tickst s G)) as (N1 & la & s1 & Hx1 & Hl1 & X1).
     pose proof (envrel_sext _ _ _ _ X1 R1) as R2.
@@ -544,7 +542,7 @@ Proof.
       rewrite (run_ok _ _ _ _ _ (equals_tie d s2 la lb a b tb Hl1' Hl2 Sc Q)) in Pr;
       eexists _, _, _; (split; [exact Pr|]); (split; [apply h_bool, hget_allocst|]);
       (eapply sext_trans; [exact X02 | apply sext_allocst; eapply sext_good; eauto]).
-    all: match type of Ev with C.eval_binop ?cop _ _ _ _ = _ =>
+    all: match type of Ev with Compile.eval_binop ?cop _ _ _ _ = _ =>
            destruct (dispatch_tie cop _ lt rt s2 la lb a b v eq_refl ltac:(discriminate) ltac:(discriminate)
                        ltac:(first [intro Q; discriminate Q | intros _ Q; subst lt; discriminate Fx])
                        (sext_good _ _ X02) Hl1' Hl2 Ev)
@@ -552,7 +550,7 @@ Proof.
          rewrite D in Pr; eexists _, _, _; (split; [exact Pr|]); (split; [exact Hh|]);
          (eapply sext_trans; [exact X02 | exact X3]).
   - (* array literal *)
-    destruct (C.eval_list _ l) as [vs|] eqn:El; [|discriminate]. inversion Ev; subst v.
+    destruct (Compile.eval_list _ l) as [vs|] eqn:El; [|discriminate]. inversion Ev; subst v.
     pose proof (envrel_sext _ _ _ _ (sext_tickst s G) R) as R1.
     destruct (IHl _ _ _ _ Fr El R1 (good_tickst s G)) as (N & ls & s1 & Hx & Hh & X1).
     pose proof (sext_allocst s1 (HArr ls) (sext_good _ _ X1)) as X2.
@@ -563,8 +561,8 @@ Proof.
     + eapply sext_trans; [apply sext_tickst; auto|]. eapply sext_trans; eauto.
   - (* index *)
     apply andb_true_iff in Fr as [Fl Fi].
-    destruct (C.eval_expr _ l) as [a|] eqn:El; [|discriminate].
-    destruct (C.eval_expr _ i) as [b|] eqn:Ei; [|discriminate].
+    destruct (Compile.eval_expr _ l) as [a|] eqn:El; [|discriminate].
+    destruct (Compile.eval_expr _ i) as [b|] eqn:Ei; [|discriminate].
     destruct (Vm.index_value a b) as [w| |] eqn:Iv; try discriminate. inversion Ev; subst w.
     pose proof (envrel_sext _ _ _ _ (sext_tickst s G) R) as R1.
     destruct (IHl _ _ _ _ Fl El R1 (good_tickst s G)) as (N1 & la & s1 & Hx1 & Hl1 & X1).
@@ -607,8 +605,8 @@ Proof.
     inversion Ev; subst. exists 1%nat, [], s. split; [reflexivity|]. split; [constructor | apply sext_refl; auto].
   - (* a list *)
     apply andb_true_iff in Fr as [Fe Ft].
-    destruct (C.eval_expr _ e) as [w|] eqn:Ee; [|discriminate].
-    destruct (C.eval_list _ t) as [ws|] eqn:Et; [|discriminate]. inversion Ev; subst v.
+    destruct (Compile.eval_expr _ e) as [w|] eqn:Ee; [|discriminate].
+    destruct (Compile.eval_list _ t) as [ws|] eqn:Et; [|discriminate]. inversion Ev; subst v.
     destruct (IHx _ _ _ _ Fe Ee R G) as (N1 & l & s1 & Hx1 & Hl1 & X1).
     destruct value_depth_S as [d Hd].
     destruct (copy_tie d s1 l w (sext_good _ _ X1) Hl1) as (c & s2 & Hc & Hhc & X2).
@@ -627,40 +625,40 @@ Definition tie_expr P := proj1 (tie_expr_all P).
 (* ====================================================================== *)
 (* 5. Statements                                                           *)
 (* ====================================================================== *)
-Inductive srel : C.stmt -> stmt -> Prop :=
-| s_decl n t e x : xrel e x -> srel (C.SDecl n e) (SDecl n t x)
-| s_assign n t e x : xrel e x -> srel (C.SAssign (C.EVar n) e) (SAssign (EVar n t) x)
-| s_empty : srel C.SEmpty SNop
-| s_break : srel C.SBreak SBreak
+Inductive srel : Compile.stmt -> stmt -> Prop :=
+| s_decl n t e x : xrel e x -> srel (Compile.SDecl n e) (SDecl n t x)
+| s_assign n t e x : xrel e x -> srel (Compile.SAssign (Compile.EVar n) e) (SAssign (EVar n t) x)
+| s_empty : srel Compile.SEmpty SNop
+| s_break : srel Compile.SBreak SBreak
 | s_if c b elifs els xc xb xelifs xels :
     xrel c xc -> lrel b xb -> crel elifs xelifs -> orel els xels ->
-    srel (C.SIf c b elifs els) (SIf ((xc, xb) :: xelifs) xels)
-| s_while c b xc xb : xrel c xc -> lrel b xb -> srel (C.SWhile c b) (SWhile xc xb)
-with lrel : C.slist -> list stmt -> Prop :=
-| l_nil : lrel C.SNil []
-| l_cons s t x xt : srel s x -> lrel t xt -> lrel (C.SCons s t) (x :: xt)
-with crel : C.clist -> list (expr * list stmt) -> Prop :=
-| c_nil : crel C.CNil []
-| c_cons c b t xc xb xt : xrel c xc -> lrel b xb -> crel t xt -> crel (C.CCons c b t) ((xc, xb) :: xt)
-with orel : C.oslist -> option (list stmt) -> Prop :=
-| o_none : orel C.NoElse None
-| o_some b xb : lrel b xb -> orel (C.Else b) (Some xb).
+    srel (Compile.SIf c b elifs els) (SIf ((xc, xb) :: xelifs) xels)
+| s_while c b xc xb : xrel c xc -> lrel b xb -> srel (Compile.SWhile c b) (SWhile xc xb)
+with lrel : Compile.slist -> list stmt -> Prop :=
+| l_nil : lrel Compile.SNil []
+| l_cons s t x xt : srel s x -> lrel t xt -> lrel (Compile.SCons s t) (x :: xt)
+with crel : Compile.clist -> list (expr * list stmt) -> Prop :=
+| c_nil : crel Compile.CNil []
+| c_cons c b t xc xb xt : xrel c xc -> lrel b xb -> crel t xt -> crel (Compile.CCons c b t) ((xc, xb) :: xt)
+with orel : Compile.oslist -> option (list stmt) -> Prop :=
+| o_none : orel Compile.NoElse None
+| o_some b xb : lrel b xb -> orel (Compile.Else b) (Some xb).
 
 (* the statement fragment of the tie *)
-Fixpoint tfrag_s (s : C.stmt) : bool :=
+Fixpoint tfrag_s (s : Compile.stmt) : bool :=
   match s with
-  | C.SDecl n e => name_ok n && tfrag_e e
-  | C.SAssign (C.EVar n) e => name_ok n && tfrag_e e
-  | C.SEmpty | C.SBreak => true
-  | C.SIf c b elifs els =>
-      tfrag_e c && tfrag_l b && tfrag_c elifs && match els with C.NoElse => true | C.Else eb => tfrag_l eb end
-  | C.SWhile c b => tfrag_e c && tfrag_l b
+  | Compile.SDecl n e => name_ok n && tfrag_e e
+  | Compile.SAssign (Compile.EVar n) e => name_ok n && tfrag_e e
+  | Compile.SEmpty | Compile.SBreak => true
+  | Compile.SIf c b elifs els =>
+      tfrag_e c && tfrag_l b && tfrag_c elifs && match els with Compile.NoElse => true | Compile.Else eb => tfrag_l eb end
+  | Compile.SWhile c b => tfrag_e c && tfrag_l b
   | _ => false
   end
-with tfrag_l (l : C.slist) : bool :=
-  match l with C.SNil => true | C.SCons s t => tfrag_s s && tfrag_l t end
-with tfrag_c (l : C.clist) : bool :=
-  match l with C.CNil => true | C.CCons c b t => tfrag_e c && tfrag_l b && tfrag_c t end.
+with tfrag_l (l : Compile.slist) : bool :=
+  match l with Compile.SNil => true | Compile.SCons s t => tfrag_s s && tfrag_l t end
+with tfrag_c (l : Compile.clist) : bool :=
+  match l with Compile.CNil => true | Compile.CCons c b t => tfrag_e c && tfrag_l b && tfrag_c t end.
 
 (* fuel monotonicity of the statement-level functions, for successful runs *)
 Lemma stmt_mono P n m E x s r s' : (n <= m)%nat ->
@@ -679,7 +677,7 @@ Proof.
 Qed.
 
 (* ---------- frames ---------- *)
-Lemma alook_cons n m v lf : CS.alook m ((n, v) :: lf) = if str_eqb n m then Some v else CS.alook m lf.
+Lemma alook_cons n m v lf : CompileSem.alook m ((n, v) :: lf) = if str_eqb n m then Some v else CompileSem.alook m lf.
 Proof. reflexivity. Qed.
 
 Lemma frel_in_decl h n v c lf sf :
@@ -717,7 +715,7 @@ Qed.
 (* x := e *)
 Lemma decl_tie lenv E s n v c :
   envrel lenv E s -> name_ok n = true -> holds (st_heap s) c v ->
-  exists E' s', set_var n c E s = (Ok E', s') /\ envrel (CS.sdecl n v lenv) E' s' /\
+  exists E' s', set_var n c E s = (Ok E', s') /\ envrel (CompileSem.sdecl n v lenv) E' s' /\
                 st_heap s' = st_heap s /\ List.length E' = List.length E /\
                 (forall t, t = s' -> st_trace t = st_trace s /\ st_stopped t = st_stopped s /\
                                      st_stop_at t = st_stop_at s /\ st_total t = st_total s /\ st_fails t = st_fails s).
@@ -737,7 +735,7 @@ Qed.
 
 (* x = e *)
 Lemma assign_tie lenv E s n v c lenv' :
-  envrel lenv E s -> name_ok n = true -> holds (st_heap s) c v -> CS.sassign n v lenv = Some lenv' ->
+  envrel lenv E s -> name_ok n = true -> holds (st_heap s) c v -> CompileSem.sassign n v lenv = Some lenv' ->
   exists E' s', update_var n c E s = (Ok E', s') /\ envrel lenv' E' s' /\
                 st_heap s' = st_heap s /\ List.length E' = List.length E /\
                 (forall t, t = s' -> st_trace t = st_trace s /\ st_stopped t = st_stopped s /\
@@ -746,7 +744,7 @@ Proof.
   intros (lfs & gf & -> & F & FG) N H A. unfold update_var. unfold name_ok in N.
   apply negb_true_iff in N. rewrite N.
   revert lenv' A. induction F as [|lf sf lt st Hf F IH]; intros lenv' A; simpl in A |- *.
-  - destruct (CS.alook n gf) as [w|] eqn:Q; [|discriminate]. inversion A; subst lenv'.
+  - destruct (CompileSem.alook n gf) as [w|] eqn:Q; [|discriminate]. inversion A; subst lenv'.
     destruct (FG n w Q) as (l0 & G0 & _). rewrite G0.
     eexists [], _. split; [reflexivity|]. split.
     + exists [], ((n, v) :: gf). split; [reflexivity|]. split; [constructor|].
@@ -758,7 +756,7 @@ Proof.
       * exists (((n, v) :: lf) :: lt), gf. split; [reflexivity|]. split; [|exact FG].
         constructor; auto. eapply frel_in_assign; eauto.
       * simpl. repeat split; intros; subst; reflexivity.
-    + rewrite Hn in A. destruct (CS.sassign n v (lt ++ [gf])) as [r|] eqn:Q; [|discriminate].
+    + rewrite Hn in A. destruct (CompileSem.sassign n v (lt ++ [gf])) as [r|] eqn:Q; [|discriminate].
       inversion A; subst lenv'. destruct (IH _ eq_refl) as (E' & s' & U & R' & Hh & Hlen & Hrest).
       destruct (env_update n c st) as [st'|] eqn:U'.
       * inversion U; subst. eexists _, _. split; [reflexivity|]. split.
@@ -824,19 +822,19 @@ Section Stmts.
   (* the statement list part of the induction, at a given fuel of lx *)
   Definition list_tie (f : nat) : Prop :=
     forall l xl lenv E s lenv' br,
-      CS.lx_l f l lenv = Some (lenv', br) -> lrel l xl -> tfrag_l l = true -> envrel lenv E s -> good s ->
+      CompileSem.lx_l f l lenv = Some (lenv', br) -> lrel l xl -> tfrag_l l = true -> envrel lenv E s -> good s ->
       exists N sig E' s', exec_stmts N P E xl s = (Ok (sig, E'), s') /\ sigbr sig br /\
                           envrel lenv' E' s' /\ gext s s' /\ List.length E' = List.length E.
 
   (* a block: push, run, pop *)
   Lemma block_tie f b xb lenv E s lenv1 br :
-    list_tie f -> CS.leave (CS.lx_l f b ([] :: lenv)) = Some (lenv1, br) ->
+    list_tie f -> CompileSem.leave (CompileSem.lx_l f b ([] :: lenv)) = Some (lenv1, br) ->
     lrel b xb -> tfrag_l b = true -> envrel lenv E s -> good s ->
     exists N sig E2 s', exec_block N P ([] :: E) xb s = (Ok (sig, E2), s') /\ sigbr sig br /\
                         envrel lenv1 (tl E2) s' /\ gext s s' /\ List.length (tl E2) = List.length E.
   Proof.
-    intros HL Hl Rb Fb R G. unfold CS.leave in Hl.
-    destruct (CS.lx_l f b ([] :: lenv)) as [[lenv2 br2]|] eqn:Q; [|discriminate]. inversion Hl; subst.
+    intros HL Hl Rb Fb R G. unfold CompileSem.leave in Hl.
+    destruct (CompileSem.lx_l f b ([] :: lenv)) as [[lenv2 br2]|] eqn:Q; [|discriminate]. inversion Hl; subst.
     pose proof (envrel_sext _ _ _ _ (sext_tickst s G) (envrel_push _ _ _ R)) as R1.
     destruct (HL _ _ _ _ _ _ _ Q Rb Fb R1 (good_tickst s G)) as (N & sig & E2 & s' & Hx & Hs & R2 & X & Hlen).
     exists (S N), sig, E2, s'. split; [cbn [exec_block]; rewrite (run_tick _ s G); exact Hx|].
@@ -848,8 +846,8 @@ Section Stmts.
 
   (* a condition with its block *)
   Lemma cond_true_tie f c b xc xb lenv E s lenv1 br :
-    list_tie f -> C.eval_expr (fun n => CS.slook n lenv) c = Some (Vm.VBool true) ->
-    CS.leave (CS.lx_l f b ([] :: lenv)) = Some (lenv1, br) ->
+    list_tie f -> Compile.eval_expr (fun n => CompileSem.slook n lenv) c = Some (Vm.VBool true) ->
+    CompileSem.leave (CompileSem.lx_l f b ([] :: lenv)) = Some (lenv1, br) ->
     xrel c xc -> lrel b xb -> tfrag_e c = true -> tfrag_l b = true -> envrel lenv E s -> good s ->
     exists N sig E1 s', exec_cond N P E xc xb s = (Ok (Some sig, E1), s') /\ sigbr sig br /\
                         envrel lenv1 E1 s' /\ gext s s' /\ List.length E1 = List.length E.
@@ -870,7 +868,7 @@ Section Stmts.
   Qed.
 
   Lemma cond_false_tie c xc xb lenv E s :
-    C.eval_expr (fun n => CS.slook n lenv) c = Some (Vm.VBool false) ->
+    Compile.eval_expr (fun n => CompileSem.slook n lenv) c = Some (Vm.VBool false) ->
     xrel c xc -> tfrag_e c = true -> envrel lenv E s -> good s ->
     exists N s', exec_cond N P E xc xb s = (Ok (None, E), s') /\ envrel lenv E s' /\ gext s s'.
   Proof.
@@ -910,26 +908,26 @@ Section Main.
 
   Definition stmt_tie (f : nat) : Prop :=
     forall st x lenv E s lenv' br,
-      CS.lx_s f st lenv = Some (lenv', br) -> srel st x -> tfrag_s st = true -> envrel lenv E s -> good s ->
+      CompileSem.lx_s f st lenv = Some (lenv', br) -> srel st x -> tfrag_s st = true -> envrel lenv E s -> good s ->
       exists N sig E' s', exec_stmt N P E x s = (Ok (sig, E'), s') /\ sigbr sig br /\
                           envrel lenv' E' s' /\ gext s s' /\ List.length E' = List.length E.
   Definition conds_tie (f : nat) : Prop :=
     forall cl els xcl xels lenv E s lenv' br,
-      CS.lx_c f cl els lenv = Some (lenv', br) -> crel cl xcl -> orel els xels -> tfrag_c cl = true ->
-      match els with C.NoElse => true | C.Else eb => tfrag_l eb end = true -> envrel lenv E s -> good s ->
+      CompileSem.lx_c f cl els lenv = Some (lenv', br) -> crel cl xcl -> orel els xels -> tfrag_c cl = true ->
+      match els with Compile.NoElse => true | Compile.Else eb => tfrag_l eb end = true -> envrel lenv E s -> good s ->
       exists N sig E' s',
         SemStore.if_go (exec_cond N P) (exec_block N P) xels xcl E s = (Ok (sig, E'), s') /\ sigbr sig br /\
         envrel lenv' E' s' /\ gext s s' /\ List.length E' = List.length E.
   Definition while_tie (f : nat) : Prop :=
     forall c b xc xb lenv E s lenv' br,
-      CS.lx_s f (C.SWhile c b) lenv = Some (lenv', br) -> xrel c xc -> lrel b xb ->
+      CompileSem.lx_s f (Compile.SWhile c b) lenv = Some (lenv', br) -> xrel c xc -> lrel b xb ->
       tfrag_e c = true -> tfrag_l b = true -> envrel lenv E s -> good s ->
       exists N E' s', exec_while N P E xc xb s = (Ok (SigNone, E'), s') /\ br = false /\
                       envrel lenv' E' s' /\ gext s s' /\ List.length E' = List.length E.
 
   (* the value of a declaration / assignment: evaluate, copy *)
   Lemma value_copy_tie e x lenv E s v :
-    xrel e x -> tfrag_e e = true -> C.eval_expr (fun n => CS.slook n lenv) e = Some v ->
+    xrel e x -> tfrag_e e = true -> Compile.eval_expr (fun n => CompileSem.slook n lenv) e = Some v ->
     envrel lenv E s -> good s ->
     exists N c s2, (let* v0 := eval_expr N P E x in let* d := depth_fuel in copy_or_ref d v0) (tickst s) = (Ok c, s2) /\
                    holds (st_heap s2) c v /\ sext s s2.
@@ -946,8 +944,8 @@ Section Main.
 
   Lemma while_step f : list_tie P f -> while_tie f -> while_tie (S f).
   Proof.
-    intros IL IW c b xc xb lenv E s lenv' br H Rc Rb Fc Fb R G. cbn [CS.lx_s] in H.
-    destruct (C.eval_expr (fun x => CS.slook x lenv) c) as [[| [|] | | | | |]|] eqn:Ec; try discriminate.
+    intros IL IW c b xc xb lenv E s lenv' br H Rc Rb Fc Fb R G. cbn [CompileSem.lx_s] in H.
+    destruct (Compile.eval_expr (fun x => CompileSem.slook x lenv) c) as [[| [|] | | | | |]|] eqn:Ec; try discriminate.
     - (* the condition holds *)
       dscrut H Hl; [|discriminate H]. destruct p as [env1 br1].
       destruct (cond_true_tie P f c b xc xb lenv E s env1 br1 IL Ec Hl Rc Rb Fc Fb R G)
@@ -971,7 +969,7 @@ Section Main.
 
   Lemma conds_step f : list_tie P f -> conds_tie f -> conds_tie (S f).
   Proof.
-    intros IL IC cl els xcl xels lenv E s lenv' br H Rc Ro Fc Fo R G. cbn [CS.lx_c] in H.
+    intros IL IC cl els xcl xels lenv E s lenv' br H Rc Ro Fc Fo R G. cbn [CompileSem.lx_c] in H.
     inversion Rc as [|c b t xc xb xt Rc1 Rb1 Rt1]; subst.
     - (* no condition left: the else block, if any *)
       inversion Ro as [|eb xeb Reb]; subst.
@@ -979,7 +977,7 @@ Section Main.
       + destruct (block_tie P f eb xeb lenv E s lenv' br IL H Reb Fo R G) as (N & sig & E2 & s' & Hb & Hs & R2 & X & Hlen).
         exists N, sig, (tl E2), s'. simpl. rewrite (run_ok _ _ _ _ _ Hb). auto.
     - simpl in Fc. apply andb_true_iff in Fc as [Fc Ft]. apply andb_true_iff in Fc as [Fc1 Fb1].
-      destruct (C.eval_expr (fun x => CS.slook x lenv) c) as [[| [|] | | | | |]|] eqn:Ec; try discriminate.
+      destruct (Compile.eval_expr (fun x => CompileSem.slook x lenv) c) as [[| [|] | | | | |]|] eqn:Ec; try discriminate.
       + destruct (cond_true_tie P f c b xc xb lenv E s lenv' br IL Ec H Rc1 Rb1 Fc1 Fb1 R G)
           as (N1 & sig & E1 & s1 & Hc & Hs & R1 & X1 & Hlen1).
         exists N1, sig, E1, s1. simpl. rewrite (run_ok _ _ _ _ _ Hc). auto.
@@ -995,10 +993,10 @@ Section Main.
   Proof.
     intros IC IW st x lenv E s lenv' br H Rs Fs R G.
     inversion Rs as [n t e xe Rx|n t e xe Rx| | |c b elifs els xc xb xelifs xels Rc Rb Rl Ro|c b xc xb Rc Rb];
-      subst; cbn [CS.lx_s] in H; simpl in Fs.
+      subst; cbn [CompileSem.lx_s] in H; simpl in Fs.
     - (* x := e *)
       apply andb_true_iff in Fs as [Fn Fe].
-      destruct (C.eval_expr (fun x0 => CS.slook x0 lenv) e) as [v|] eqn:Ev; [|discriminate]. inversion H; subst.
+      destruct (Compile.eval_expr (fun x0 => CompileSem.slook x0 lenv) e) as [v|] eqn:Ev; [|discriminate]. inversion H; subst.
       destruct (value_copy_tie e xe lenv E s v Rx Fe Ev R G) as (N & c & s2 & Hv & Hh & X2).
       destruct (decl_tie lenv E s2 n v c (envrel_sext _ _ _ _ X2 R) Fn Hh) as (E' & s3 & Hd & R3 & Hheap & Hlen & Hrest).
       exists (S N), SigNone, E', s3. split.
@@ -1011,8 +1009,8 @@ Section Main.
         apply gext_same_heap; [eapply sext_good; eauto | exact Hheap | apply (Hrest s3 eq_refl)].
     - (* x = e *)
       apply andb_true_iff in Fs as [Fn Fe].
-      destruct (C.eval_expr (fun x0 => CS.slook x0 lenv) e) as [v|] eqn:Ev; [|discriminate].
-      destruct (CS.sassign n v lenv) as [lenv1|] eqn:Ha; [|discriminate]. inversion H; subst.
+      destruct (Compile.eval_expr (fun x0 => CompileSem.slook x0 lenv) e) as [v|] eqn:Ev; [|discriminate].
+      destruct (CompileSem.sassign n v lenv) as [lenv1|] eqn:Ha; [|discriminate]. inversion H; subst.
       destruct (value_copy_tie e xe lenv E s v Rx Fe Ev R G) as (N & c & s2 & Hv & Hh & X2).
       destruct (assign_tie lenv E s2 n v c lenv' (envrel_sext _ _ _ _ X2 R) Fn Hh Ha)
         as (E' & s3 & Hd & R3 & Hheap & Hlen & Hrest).
@@ -1036,7 +1034,7 @@ Section Main.
       split; [apply sext_gext, sext_tickst; auto | reflexivity].
     - (* if *)
       apply andb_true_iff in Fs as [Fs Fo]. apply andb_true_iff in Fs as [Fs Fl]. apply andb_true_iff in Fs as [Fc Fb].
-      destruct (IC (C.CCons c b elifs) els ((xc, xb) :: xelifs) xels lenv E (tickst s) lenv' br H
+      destruct (IC (Compile.CCons c b elifs) els ((xc, xb) :: xelifs) xels lenv E (tickst s) lenv' br H
                    (c_cons _ _ _ _ _ _ Rc Rb Rl) Ro)
         as (N & sig & E' & s' & Hi & Hs & R' & X & Hlen).
       { simpl. rewrite Fc, Fb, Fl. reflexivity. }
@@ -1059,7 +1057,7 @@ Section Main.
 
   Lemma list_step f : stmt_tie f -> list_tie P f -> list_tie P (S f).
   Proof.
-    intros IS IL l xl lenv E s lenv' br H Rl Fl R G. cbn [CS.lx_l] in H.
+    intros IS IL l xl lenv E s lenv' br H Rl Fl R G. cbn [CompileSem.lx_l] in H.
     inversion Rl as [|st t x xt Rs Rt]; subst.
     - inversion H; subst. exists 1%nat, SigNone, E, s. split; [reflexivity|].
       split; [exact I|]. split; [exact R|]. split; [apply gext_refl; auto | reflexivity].
@@ -1115,13 +1113,13 @@ Qed.
 Definition sem_global (s : state) (n : str) (v : Vm.value) : Prop :=
   exists l, frame_get n (st_globals s) = Some l /\ holds (st_heap s) l v.
 
-Theorem tie_program (P : program) (p : C.slist) fuel env' s0 :
-  CS.lx_l fuel p [[]] = Some (env', false) ->
+Theorem tie_program (P : program) (p : Compile.slist) fuel env' s0 :
+  CompileSem.lx_l fuel p [[]] = Some (env', false) ->
   lrel p (p_stmts P) -> tfrag_l p = true ->
   good s0 -> st_total s0 = 0%nat -> st_fails s0 = 0%nat ->
   exists N s1, (forall n, (N <= n)%nat -> run_program n P s0 = (ODone, s1)) /\
                st_trace s1 = st_trace s0 /\
-               forall n v, CS.slook n env' = Some v -> sem_global s1 n v.
+               forall n v, CompileSem.slook n env' = Some v -> sem_global s1 n v.
 Proof.
   intros H Rl Fl G T0 F0.
   destruct (tie_all P fuel) as (_ & IL & _ & _).
@@ -1138,7 +1136,7 @@ Proof.
   - destruct X as (_ & _ & Xt & _). exact Xt.
   - intros n v A. destruct R1 as (lfs & gf & Eq & F & FG).
     inversion F; subst. simpl in A.
-    destruct (CS.alook n gf) as [w|] eqn:Q; [|discriminate]. inversion A; subst w.
+    destruct (CompileSem.alook n gf) as [w|] eqn:Q; [|discriminate]. inversion A; subst w.
     destruct (FG n v Q) as (l & Gl & Hl). exists l. auto.
 Qed.
 
@@ -1148,41 +1146,41 @@ Proof. split; [apply SemStore.wf_init | split; reflexivity]. Qed.
 (* ====================================================================== *)
 (* 7. The translation (with every type annotation TNone: Sem.v does not look at them here) *)
 (* ====================================================================== *)
-Fixpoint tr_e (e : C.expr) : expr :=
+Fixpoint tr_e (e : Compile.expr) : expr :=
   match e with
-  | C.ENum f => ENum f
-  | C.EBool b => EBool b
-  | C.EStr s => EStr s
-  | C.EVar n => EVar n TNone
-  | C.EGroup e1 => EGroup (tr_e e1)
-  | C.EUn C.UMinus e1 => EUn UMinus (tr_e e1)
-  | C.EUn _ e1 => EUn UBang (tr_e e1)
-  | C.EBin op _ _ l r => EBin (match trop op with Some o => o | None => BPlus end) TNone (tr_e l) (tr_e r)
-  | C.EArr l => EArr TNone (tr_el l)
-  | C.EIndex l i => EIndex TNone (tr_e l) (tr_e i)
+  | Compile.ENum f => ENum f
+  | Compile.EBool b => EBool b
+  | Compile.EStr s => EStr s
+  | Compile.EVar n => EVar n TNone
+  | Compile.EGroup e1 => EGroup (tr_e e1)
+  | Compile.EUn Compile.UMinus e1 => EUn UMinus (tr_e e1)
+  | Compile.EUn _ e1 => EUn UBang (tr_e e1)
+  | Compile.EBin op _ _ l r => EBin (match trop op with Some o => o | None => BPlus end) TNone (tr_e l) (tr_e r)
+  | Compile.EArr l => EArr TNone (tr_el l)
+  | Compile.EIndex l i => EIndex TNone (tr_e l) (tr_e i)
   | _ => ENum 0%float
   end
-with tr_el (l : C.elist) : list expr :=
-  match l with C.ENil => [] | C.ECons e t => tr_e e :: tr_el t end.
+with tr_el (l : Compile.elist) : list expr :=
+  match l with Compile.ENil => [] | Compile.ECons e t => tr_e e :: tr_el t end.
 
-Fixpoint tr_s (s : C.stmt) : stmt :=
+Fixpoint tr_s (s : Compile.stmt) : stmt :=
   match s with
-  | C.SDecl n e => SDecl n TNone (tr_e e)
-  | C.SAssign (C.EVar n) e => SAssign (EVar n TNone) (tr_e e)
-  | C.SBreak => SBreak
-  | C.SIf c b elifs els =>
-      SIf ((tr_e c, tr_l b) :: tr_c elifs) (match els with C.NoElse => None | C.Else eb => Some (tr_l eb) end)
-  | C.SWhile c b => SWhile (tr_e c) (tr_l b)
+  | Compile.SDecl n e => SDecl n TNone (tr_e e)
+  | Compile.SAssign (Compile.EVar n) e => SAssign (EVar n TNone) (tr_e e)
+  | Compile.SBreak => SBreak
+  | Compile.SIf c b elifs els =>
+      SIf ((tr_e c, tr_l b) :: tr_c elifs) (match els with Compile.NoElse => None | Compile.Else eb => Some (tr_l eb) end)
+  | Compile.SWhile c b => SWhile (tr_e c) (tr_l b)
   | _ => SNop
   end
-with tr_l (l : C.slist) : list stmt :=
-  match l with C.SNil => [] | C.SCons s t => tr_s s :: tr_l t end
-with tr_c (l : C.clist) : list (expr * list stmt) :=
-  match l with C.CNil => [] | C.CCons c b t => (tr_e c, tr_l b) :: tr_c t end.
+with tr_l (l : Compile.slist) : list stmt :=
+  match l with Compile.SNil => [] | Compile.SCons s t => tr_s s :: tr_l t end
+with tr_c (l : Compile.clist) : list (expr * list stmt) :=
+  match l with Compile.CNil => [] | Compile.CCons c b t => (tr_e c, tr_l b) :: tr_c t end.
 
 Lemma tr_e_rel : forall e, tfrag_e e = true -> xrel e (tr_e e).
 Proof.
-  fix IH 1 with (IHl (l : C.elist) : tfrag_el l = true -> xlrel l (tr_el l)).
+  fix IH 1 with (IHl (l : Compile.elist) : tfrag_el l = true -> xlrel l (tr_el l)).
   - intros e F. destruct e; simpl in F; try discriminate.
     + constructor.
     + constructor.
@@ -1205,8 +1203,8 @@ Lemma tr_rel :
   (forall l, tfrag_c l = true -> crel l (tr_c l)).
 Proof.
   assert (HS : forall s, tfrag_s s = true -> srel s (tr_s s))
-    by (fix IHs 1 with (IHl (l : C.slist) : tfrag_l l = true -> lrel l (tr_l l))
-                       (IHc (l : C.clist) : tfrag_c l = true -> crel l (tr_c l));
+    by (fix IHs 1 with (IHl (l : Compile.slist) : tfrag_l l = true -> lrel l (tr_l l))
+                       (IHc (l : Compile.clist) : tfrag_c l = true -> crel l (tr_c l));
         [ intros s F; destruct s; simpl in F; try discriminate; simpl
         | intros l F; destruct l; simpl in F |- *; [constructor | apply andb_true_iff in F as [F1 F2]; constructor; auto]
         | intros l F; destruct l; simpl in F |- *;
